@@ -1079,7 +1079,16 @@ func ruleEnumUse(c *Ctx) []Obligation {
 	res := c.MustFn("yang.(*Type).resolve")
 	// the helper closure that chooses between Set and SetNext by the presence of the value node
 	var helper *ssa.Function
-	for _, an := range res.AnonFuncs {
+	// … or the function or method that took the closure's place
+	cands := append([]*ssa.Function{}, res.AnonFuncs...)
+	eachInstr(res, func(in ssa.Instruction) {
+		if ci, isC := in.(ssa.CallInstruction); isC {
+			if cal := ci.Common().StaticCallee(); cal != nil && c.isRepoFn(cal) && cal != res && cal.Blocks != nil {
+				cands = append(cands, cal)
+			}
+		}
+	})
+	for _, an := range cands {
 		hasSet, hasNext := false, false
 		eachInstr(an, func(in ssa.Instruction) {
 			if call, ok := in.(*ssa.Call); ok && call.Call.StaticCallee() != nil {
@@ -1100,6 +1109,11 @@ func ruleEnumUse(c *Ctx) []Obligation {
 		return []Obligation{undecided(R, con, c.Pos(res.Pos()), "no helper calling both Set and SetNext in Type.resolve")}
 	}
 	valueP := ssa.Value(helper.Params[len(helper.Params)-1])
+	for _, p := range helper.Params {
+		if pt, isP := p.Type().(*types.Pointer); isP && namedOf(pt.Elem()) != nil && objName(namedOf(pt.Elem()).Obj()) == "Value" {
+			valueP = p
+		}
+	}
 	good := true
 	eachInstr(helper, func(in ssa.Instruction) {
 		call, ok := in.(*ssa.Call)
